@@ -189,78 +189,141 @@ func checkMergeLimit(p *core.Prog, r *core.Report, rule string) {
 	fn := p.Func(pkgStore, "baseStore.Merge")
 	r.Touch(core.FuncName(fn))
 	size := p.Field(pkgStore, "baseStore", "totalSizeBytes")
-	var within []core.Edge
-	var exceed []core.Edge
-	core.Instrs(fn, func(in ssa.Instruction) {
-		ifi, ok := in.(*ssa.If)
-		if !ok {
-			return
-		}
-		isSize := func(v ssa.Value) bool { f, _ := core.LoadedField(core.SkipConv(v)); return f == size }
-		isLimit := func(v ssa.Value) bool {
-			f, _ := core.LoadedField(core.SkipConv(v))
-			return f != nil && f.Name() == "totalSizeLimit"
-		}
-		onT, onF, ok := core.CondRelation(ifi.Cond, isSize, isLimit)
-		if !ok {
-			return
-		}
-		if onT == core.OrdGT {
-			exceed = append(exceed, core.Edge{From: ifi.Block(), Idx: 0})
-			within = append(within, core.Edge{From: ifi.Block(), Idx: 1})
-		}
-		if onF == core.OrdGT {
-			exceed = append(exceed, core.Edge{From: ifi.Block(), Idx: 1})
-			within = append(within, core.Edge{From: ifi.Block(), Idx: 0})
-		}
-	})
-	// `limit > 0 &&`: a store without limit (tests) has nothing to compare with
-	noLimit := func(e core.Edge) bool {
-		ifi, ok := e.From.Instrs[len(e.From.Instrs)-1].(*ssa.If)
-		if !ok {
-			return false
-		}
-		onT, onF, ok := core.CondRelation(ifi.Cond, func(v ssa.Value) bool {
-			f, _ := core.LoadedField(core.SkipConv(v))
-			return f != nil && f.Name() == "totalSizeLimit"
-		}, func(v ssa.Value) bool {
-			k, ok := v.(*ssa.Const)
-			return ok && k.Value != nil && k.Value.ExactString() == "0"
-		})
-		if !ok {
-			return false
-		}
-		// the edge on which the limit is known not to be positive (unsigned: zero)
-		if e.Idx == 0 {
-			return onT&core.OrdGT == 0
-		}
-		return onF&core.OrdGT == 0
+	// the comparison edges of a function: size > limit (exceed), its complement (within), and `limit == 0` (no limit)
+	type cmpEdges struct {
+		within, exceed []core.Edge
+		noLimit        func(core.Edge) bool
 	}
-	okErr := len(exceed) > 0
-	for _, e := range exceed {
+	edgesOf := func(f *ssa.Function) cmpEdges {
+		var ce cmpEdges
+		isLimit := func(v ssa.Value) bool {
+			fl, _ := core.LoadedField(core.SkipConv(v))
+			return fl != nil && fl.Name() == "totalSizeLimit"
+		}
+		core.Instrs(f, func(in ssa.Instruction) {
+			ifi, ok := in.(*ssa.If)
+			if !ok {
+				return
+			}
+			isSize := func(v ssa.Value) bool { fl, _ := core.LoadedField(core.SkipConv(v)); return fl == size }
+			onT, onF, ok := core.CondRelation(ifi.Cond, isSize, isLimit)
+			if !ok {
+				return
+			}
+			if onT == core.OrdGT {
+				ce.exceed = append(ce.exceed, core.Edge{From: ifi.Block(), Idx: 0})
+				ce.within = append(ce.within, core.Edge{From: ifi.Block(), Idx: 1})
+			}
+			if onF == core.OrdGT {
+				ce.exceed = append(ce.exceed, core.Edge{From: ifi.Block(), Idx: 1})
+				ce.within = append(ce.within, core.Edge{From: ifi.Block(), Idx: 0})
+			}
+		})
+		ce.noLimit = func(e core.Edge) bool {
+			ifi, ok := e.From.Instrs[len(e.From.Instrs)-1].(*ssa.If)
+			if !ok {
+				return false
+			}
+			onT, onF, ok := core.CondRelation(ifi.Cond, isLimit, func(v ssa.Value) bool {
+				k, ok := v.(*ssa.Const)
+				return ok && k.Value != nil && k.Value.ExactString() == "0"
+			})
+			if !ok {
+				return false
+			}
+			if e.Idx == 0 {
+				return onT&core.OrdGT == 0
+			}
+			return onF&core.OrdGT == 0
+		}
+		return ce
+	}
+	// a function "tests the limit" when it has the comparison, the exceeding branch only returns errors, and no success
+	// return is reachable without a comparison
+	testsLimit := func(f *ssa.Function) bool {
+		ce := edgesOf(f)
+		if len(ce.exceed) == 0 {
+			return false
+		}
+		for _, e := range ce.exceed {
+			if !core.OnlyErrorReturnsFrom(e.From.Succs[e.Idx]) {
+				return false
+			}
+		}
+		q := core.PathQuery{Fn: f, CutEdge: func(e core.Edge) bool { return containsEdge(ce.within, e) || ce.noLimit(e) }}
+		_, reach := q.CanReach(nil, func(x ssa.Instruction) bool { return core.ReturnsConstNilError(x) })
+		return !reach
+	}
+	ce := edgesOf(fn)
+	// a return of Merge that hands back the verdict of a helper which tests the limit counts as a tested return
+	isTestedReturn := func(x ssa.Instruction) bool {
+		rt, ok := x.(*ssa.Return)
+		if !ok || len(rt.Results) == 0 {
+			return false
+		}
+		c, ok := rt.Results[len(rt.Results)-1].(*ssa.Call)
+		if !ok {
+			return false
+		}
+		h := core.StaticFn(c.Common())
+		return h != nil && h.Blocks != nil && h.Pkg == fn.Pkg && testsLimit(h)
+	}
+	okErr := true
+	for _, e := range ce.exceed {
 		if !core.OnlyErrorReturnsFrom(e.From.Succs[e.Idx]) {
 			okErr = false
 		}
 	}
-	q := core.PathQuery{Fn: fn, CutEdge: func(e core.Edge) bool { return containsEdge(within, e) || noLimit(e) }}
-	_, reach := q.CanReach(nil, func(x ssa.Instruction) bool { return core.ReturnsConstNilError(x) })
-	// …and the comparison sees the size AFTER the merge: from every write of Merge (setKV, setNewKV, deletePrefix) success is
-	// still only reachable through a comparison
-	nW := 0
+	q := core.PathQuery{Fn: fn, CutEdge: func(e core.Edge) bool { return containsEdge(ce.within, e) || ce.noLimit(e) }}
+	untested := func(x ssa.Instruction) bool {
+		rt, ok := x.(*ssa.Return)
+		if !ok {
+			return false
+		}
+		if core.ReturnsConstNilError(rt) {
+			return true
+		}
+		// a non-constant result that is not a tested helper verdict and may be nil (e.g. a nil-able error variable)
+		if len(rt.Results) > 0 {
+			// `return helper()`: the helper's verdict is returned unexamined (a call whose only use is this return)
+			if cv, isCall := rt.Results[len(rt.Results)-1].(*ssa.Call); isCall && cv.Referrers() != nil && len(*cv.Referrers()) == 1 && !isTestedReturn(x) && !core.OnlyErrorValue(cv) {
+				return true
+			}
+		}
+		return false
+	}
+	_, reach := q.CanReach(nil, untested)
+	nW, nTested := 0, 0
 	core.Instrs(fn, func(in ssa.Instruction) {
+		if isTestedReturn(in) {
+			nTested++
+		}
 		c := core.CalleeOf(in)
 		if c == nil || (c.Name() != "setKV" && c.Name() != "setNewKV" && c.Name() != "deletePrefix" && c.Name() != "DeletePrefix") {
 			return
 		}
 		nW++
-		if _, r2 := q.CanReach(in, func(x ssa.Instruction) bool { return core.ReturnsConstNilError(x) }); r2 {
+		if _, r2 := q.CanReach(in, untested); r2 {
 			reach = true
 		}
 	})
 	if nW < 10 {
+		// the per-policy loops may have been extracted: count the writes of the family
+		for _, m := range core.Family(fn, 1) {
+			if m == fn {
+				continue
+			}
+			core.Instrs(m, func(in ssa.Instruction) {
+				if c := core.CalleeOf(in); c != nil && (c.Name() == "setKV" || c.Name() == "setNewKV") {
+					nW++
+				}
+			})
+		}
+	}
+	if nW < 10 {
 		core.Undecide("Merge: only %d write calls found", nW)
 	}
-	r.Check(okErr && !reach, rule, "Merge/limit-after", "Merge succeeds only after the merged size was compared with the store's limit, and a size above the limit is an error (the writes of Merge bypass ApplyDelta, where the limit is tested)", fmt.Sprintf("%d comparisons of the size with the limit; success reachable without one: %v", len(exceed), reach), p.Pos(fn.Pos()))
+	r.Check((len(ce.exceed) > 0 || nTested > 0) && okErr && !reach, rule, "Merge/limit-after", "Merge succeeds only after the merged size was compared with the store's limit, and a size above the limit is an error (the writes of Merge bypass ApplyDelta, where the limit is tested)", fmt.Sprintf("%d comparisons of the size with the limit in Merge, %d returns of a limit-testing helper; success reachable without a test: %v", len(ce.exceed), nTested, reach), p.Pos(fn.Pos()))
 }
 
 // checkSkipFromIndexAbsentOutput (C15.R4): when no index file exists the filter is evaluated on the keys the index
